@@ -1,1 +1,5 @@
 //! One module per engine; `run(args) -> exit code`.
+pub mod sctp_rig;
+pub mod latch_enum;
+pub mod codec_diff;
+pub mod srtp_gate;
